@@ -43,7 +43,7 @@ func init() {
 		ID:    "C19",
 		Level: "other",
 		Rule: "The registry of exported functions, types, variables and aliases of packages safehtml and safehtml/template is regenerated from /repo's current sources (go/parser) and linked into the monitor. Observed at run time: (1) reflect type identity of every parameter in the reviewed list policy/api_surface.json: a defined string-kind type declared in the library with an unexported name, and no exported function result, variable, field, alias or method result exposes such a type; any exported function or method of the registry that takes a plain string where the reviewed list demands a constant fails the check; " +
-			"(2) each safe type is a struct with only unexported fields, no exported method mutates it from caller strings, and no other exported type of the registry (nor string, []byte or a look-alike struct) is convertible to it (reflect.Type.ConvertibleTo); (3) dynamic taint probe: every exported function and every method of every exported type is called with a hostile payload in each parameter that carries caller strings (string, []string, map[string]string, []byte, interface{}, StyleProperties) and benign values elsewhere; a returned safe-type value (or HTML produced by a returned template) that contains the payload verbatim is a violation; (4) ParseFS patterns never read a canary file outside the TrustedFS root. " +
+			"(2) each safe type is a struct with only unexported fields, no exported method mutates it from caller strings, and no other exported type of the registry (nor string, []byte or a look-alike struct) is convertible to it (reflect.Type.ConvertibleTo); (3) dynamic taint probe: every exported function and every method of every exported type is called with a hostile payload in each parameter that carries caller strings (string, []string, map[string]string, []byte, interface{}, StyleProperties) and benign values elsewhere; a returned safe-type value (or HTML produced by a returned template) that contains the payload verbatim is a violation; (4) ParseFS patterns never read a canary file outside the TrustedFS root; (5) the functions the engine inserts into action pipelines are read from the rewritten trees after a first execution, and a FuncMap entry of each such name, given to Funcs before Parse, after Parse or after the first execution, is either refused or leaves the HTML returned by ExecuteToHTML free of that function's result. " +
 			"Not observable by this technique: that the Go compiler rejects a given client program; it is inferred from (1) under the Go specification's assignability and export rules.",
 		Assumptions: []string{"Go specification: a value of an unexported defined string type of another package can only be produced by an untyped constant (assignability) — stated assumption, not observed", "policy/api_surface.json is the reviewed list of constant-gated parameters and safe types"},
 		Run:         run,
@@ -58,6 +58,10 @@ func replay(c *core.Ctx, raw json.RawMessage) error {
 	json.Unmarshal(raw, &k)
 	if k.Clause == "generic-bypass" {
 		genericBypass(c, true)
+		return nil
+	}
+	if k.Clause == "tree-field" {
+		treeField(c, true)
 		return nil
 	}
 	// every other clause is decided by the whole run; the generic-helper probe (K27) is
@@ -600,6 +604,8 @@ func run(c *core.Ctx) {
 
 	// ---- generic conversion bypass (known finding K27): counted here, judged by the witness replay
 	genericBypass(c, c.Strict)
+	// ---- exported parse tree (known finding K86): counted here, judged by the witness replay
+	treeField(c, c.Strict)
 
 	// ---- clause 4: ParseFS confinement
 	tfs := template.TrustedFSFromTrustedSource(template.TrustedSourceFromFlag(util.FlagValue(e.fsroot)))
@@ -619,6 +625,8 @@ func run(c *core.Ctx) {
 		}
 		c.Hist("parsefs", fmt.Sprint(err == nil))
 	}
+	// ---- clause 5: the engine's own pipeline functions cannot be replaced through Funcs
+	sanitizerOverride(c)
 	c.Sample(map[string]interface{}{"payload": payload(0), "functions": fnames, "types": tnames})
 }
 
